@@ -26,6 +26,7 @@ struct fdrec {
 	int called[3];
 	int id;
 	int ever_ready;
+	int kept;		/* unregistered struct kept for re-registration without IV_FD_INIT */
 };
 
 struct tmrec {
@@ -124,8 +125,14 @@ static void op_fd_unregister(struct fdrec *r)
 	sx_note("op:fd_unregister", r->id);
 	iv_fd_unregister(r->obj);
 	sx_assert(!iv_fd_registered(r->obj), "C01.fd-still-registered-after-unregister");
-	free(r->obj);		/* any later library access is a use-after-free (C01/C18) */
-	r->obj = NULL;
+	if ((P_acts & ACT_REG_FD) && sx_choose(2)) {
+		/* keep the struct for re-registration as it is (reconnect pattern, no IV_FD_INIT) */
+		sx_cover("fd.struct-kept-for-reuse");
+		r->kept = 1;
+	} else {
+		free(r->obj);	/* any later library access is a use-after-free (C01/C18) */
+		r->obj = NULL;
+	}
 	fd_set_ghost_unreg(r);
 }
 
@@ -147,11 +154,22 @@ static void op_fd_set_handler(struct fdrec *r, int b)
 
 static void op_fd_register(struct fdrec *r, int pattern, int try)
 {
-	struct iv_fd *fd = malloc(sizeof(*fd));
+	struct iv_fd *fd;
 	int b, ret;
 
-	memset(fd, 0xAA, sizeof(*fd));	/* registration must not depend on stale contents */
-	IV_FD_INIT(fd);
+	if (r->kept) {
+		/* the very struct that was unregistered, private fields as the library left them */
+		fd = r->obj;
+		fd->handler_in = NULL;
+		fd->handler_out = NULL;
+		fd->handler_err = NULL;
+		r->kept = 0;
+		sx_cover("fd.struct-reused-without-init");
+	} else {
+		fd = malloc(sizeof(*fd));
+		memset(fd, 0xAA, sizeof(*fd));	/* registration must not depend on stale contents */
+		IV_FD_INIT(fd);
+	}
 	fd->fd = r->kfd;
 	fd->cookie = r;
 	for (b = 0; b < 3; b++)
@@ -801,9 +819,17 @@ void sx_main(void)
 	final_checks();
 
 	/* tear down what is left, then the per-thread state (C18) */
-	for (i = 0; i < nK; i++)
-		if (F[i].registered)
-			op_fd_unregister(&F[i]);
+	for (i = 0; i < nK; i++) {
+		if (F[i].registered) {
+			iv_fd_unregister(F[i].obj);
+			free(F[i].obj);
+			F[i].obj = NULL;
+			fd_set_ghost_unreg(&F[i]);
+		} else if (F[i].kept) {
+			free(F[i].obj);
+			F[i].obj = NULL;
+		}
+	}
 	for (i = 0; i < nT; i++)
 		if (T[i].registered)
 			op_timer_unregister(&T[i]);
